@@ -329,7 +329,21 @@ func runC07(c *Ctx) {
 					if !ok {
 						return
 					}
-					if name, base, ok := core.IsLoadOfField(ia.X); !ok || name != "Names" || base != um.Params[0] {
+					isNames := false
+					if name, base, ok := core.IsLoadOfField(ia.X); ok && name == "Names" && base == um.Params[0] {
+						isNames = true
+					}
+					// or a local slice that becomes rec.Names
+					if mk, isMk := ia.X.(*ssa.MakeSlice); isMk {
+						for _, r := range core.Refs(mk) {
+							if st2, ok := r.(*ssa.Store); ok && st2.Val == ssa.Value(mk) {
+								if fa, ok := st2.Addr.(*ssa.FieldAddr); ok && core.FieldName(fa) == "Names" && fa.X == ssa.Value(um.Params[0]) {
+									isNames = true
+								}
+							}
+						}
+					}
+					if !isNames {
 						return
 					}
 					stores++
